@@ -11,6 +11,22 @@ REPO = os.environ.get('VERIF_REPO', '/repo')
 
 NO_DEBUG = [['+', 'core', '::', 'fmt', '::', 'Debug'], '', 'X1']
 
+# X16 (DESIGN 2.1, C17): every call path of a std heap-allocating constructor is redirected to the prelude wrapper that
+# carries the allocation permission `requires may_alloc()` (same value; functional spec assumed there).  Longest first.
+def _x16():
+    out = []
+    for pre in (['alloc', '::', 'boxed', '::'], ['std', '::', 'boxed', '::'], []):
+        out.append([pre + ['Box', '::', 'from'], 'crate::vbase::alloc_box_from', 'X16'])
+        out.append([pre + ['Box', '::', 'new'], 'crate::vbase::alloc_box_new', 'X16'])
+    for pre in (['alloc', '::', 'vec', '::'], ['std', '::', 'vec', '::'], []):
+        out.append([pre + ['Vec', '::', 'with_capacity'], 'crate::vbase::alloc_vec_with_capacity', 'X16'])
+        out.append([pre + ['Vec', '::', 'new'], 'crate::vbase::alloc_vec_new', 'X16'])
+    out.append([['.', 'to_vec', '('], '.to_vec__alloc(', 'X16'])
+    return out
+
+
+X16 = _x16()
+
 X8_RK = [[['Some', '(', '&', 'first_byte', ')', '=>', 'first_byte'], 'Some(first_byte) => *first_byte', 'X8'],
          [['Some', '(', '&', 'last_byte', ')', '=>', 'last_byte'], 'Some(last_byte) => *last_byte', 'X8']]
 
@@ -24,7 +40,7 @@ def part(name, src, mod, **opts):
     opts.setdefault('drop_items', [])
     opts['drop_items'] = list(opts['drop_items']) + ['mod tests']
     opts.setdefault('rewrites', [])
-    opts['rewrites'] = list(opts['rewrites']) + [NO_DEBUG]
+    opts['rewrites'] = list(opts['rewrites']) + [NO_DEBUG] + X16
     return dict(name=name, src=src, mod=mod, cfg=cfg, tmpl=tmpl, opts=opts)
 
 
